@@ -10,7 +10,7 @@ pub fn def() -> PropDef {
         builds: BOTH,
         rule: "every text over {L,SP,W,NL,HY,CSI} up to length N x columns 1..=4 x total widths 0..=12 x 5 gap triples (empty, ASCII, multi-byte, multi-character) x break_words x algorithms; non-trivial = >= 2 wrapped lines, or a wrapped line wider than the column",
         assumptions: BASE_ASSUMPTIONS,
-        floor: |t| t.pick(50_000, 1_000_000),
+        floor: |t| t.pick(50_000, 150_000),
         run,
     }
 }
